@@ -11,7 +11,7 @@ P = {
          "SSA value-identity and provenance rules over checkTB/doCheck/shrink/accept; discard-taint dataflow over repeat", "DESIGN.md §3 C01"),
  "C02": ("the path from every failure signal (panic, Fatal*, FailNow, Error*, Fail on any T handed to user code) to TB.Errorf is unbroken on every control-flow path: signal sets flag/panics, every bracket consults the flag after cleanups on every exit (normal, skip, panic), recover sites only convert or filter invalidData, classification and verdict reach a failing TB call. Not decided: fatal calls from foreign goroutines.",
          "typestate/must-pass-through over SSA CFG with defer exit sequences; recover-site census; callback bracket census", "DESIGN.md §3 C02"),
- "C03": ("only the structural part of the generator contracts: every enforcement guard dominates its return (u<=max, filter predicate, regexp re-check), reject and accumulate are exclusive, indices are drawn against the length of what they index, inputs are never stored through, kind tables agree with Go types, every per-draw loop makes bitstream progress or is bounded. The arithmetic (integer extremes, floats, UTF-8) is NOT decided.",
+ "C03": ("only the structural part of the generator contracts: every enforcement guard dominates its return (u<=max, filter predicate, regexp re-check), reject and accumulate are exclusive, indices are drawn against the length of what they index, inputs are never stored through, kind tables agree with Go types, every per-draw loop makes bitstream progress or is bounded, every built-in value method reads the stream on every path to a return (the regexp generators excepted: recursion over the syntax tree, not decided), the string byte budget is tested against maxLen itself, Make's kind generator is converted where a named type needs it and is built for (or looked up by) the requested reflect.Type. The arithmetic (integer extremes, floats, UTF-8) is NOT decided.",
          "guard-dominance rules, table agreement via go/types + constant folding, loop census over natural loops", "DESIGN.md §3 C03"),
  "C04": ("noninterference: inside the generation closure nothing but the bitstream, immutable parameters and process-constant configuration can influence a draw; nothing derived from discarded (rejected) bits influences later draws except through the replay-neutral zero-width stop; both stream implementations return exactly what they record, identically masked; the PRNG state is fully re-initialised per test case; prune removes exactly the discarded groups.",
          "nondeterminism census over the VTA call-graph closure; discard-taint dataflow; sibling agreement of drawBits; field-access index", "DESIGN.md §3 C04"),
@@ -37,11 +37,11 @@ P = {
          "must-hold lock-set dataflow over SSA CFG + field access index + call closure of the safe method set", "DESIGN.md §3 C14"),
  "C15": ("deep immutability after construction of every generator object and of shared package-level data: no store to a generator field outside its allocating function except inside a sync.Once of the same object, reads of Once-published fields are dominated by Do, nothing reachable from value/String stores through generator fields or globals, package-level variables are init-only or sync.Map.",
          "who-may-write field census, Once-publication dominance, store-through-field escape rule, package variable census", "DESIGN.md §3 C15"),
- "C16": ("for every crash point, by ordering: all writes go to the CreateTemp file in the target's directory, their errors are checked before publication, Close precedes Rename, Rename is last and is the only use of the final name, and the temporary name pattern can never match the discovery glob for any test name.",
+ "C16": ("for every crash point, by ordering: all writes go to the CreateTemp file in the target's directory, their errors are checked before publication, Close precedes Rename, Rename is last and is the only use of the final name, the temporary name pattern can never match the discovery glob for any test name, and Check publishes the file once per failure with the captured output already in it (no second save under the same name).",
          "CFG ordering / must-pass-through in saveFailFile, error-check dataflow, constant-pattern disjointness", "DESIGN.md §3 C16"),
  "C17": ("every malformed shape becomes an error value, never a panic: all error results tested, all index expressions length-guarded, no assert reachable in the loader; every ignore path logs and returns nil errors; the fail-file phase calls only Helper/Logf/Log/Name on the TB and leaves seed/checks/deadline for the random phase untouched.",
          "error-discipline and index-guard rules over SSA, must-log-before-return, TB method census", "DESIGN.md §3 C17"),
- "C18": ("entropy provenance of the base seed, pairwise-distinct per-case seeds, and — by folding the guards of genUintNBiased for every bit length 1..64 — satisfiability of the full-width, forced-max and narrow draws for every range width; float min/max pins. Frequencies ('within a few thousand draws') are NOT decided.",
+ "C18": ("entropy provenance of the base seed, pairwise-distinct per-case seeds, and — by folding the guards of genUintNBiased for every bit length 1..64 — satisfiability of the full-width, forced-max and narrow draws for every range width; float min/max pins, lexicographic use of the bounds' parts (a part of min/max restricts a significand draw only where all higher-order parts are pinned to that bound), the trailing-bit loop can run zero times. Frequencies ('within a few thousand draws') are NOT decided.",
          "provenance rule on baseSeed; one-unknown interval solving of folded path conditions for L=1..64", "DESIGN.md §3 C18"),
 }
 
